@@ -35,7 +35,13 @@ RULE = ("one case = (1..3 transports websocket/rawsocket with their own max_retr
         "transport: ALL scripts over {refused, handshake refused, orderly close after the client's handshake, (asyncio) handshake refused before the connect result, ABORT, joined-then-lost, main raises | application leave, "
         "main returns} up to length 4 (quick) / 5 (thorough) for every max_retries value, and stop() at every phase of "
         "every attempt of the scripts up to length 2 (quick) / 3 (thorough); 2-3 transports and the remaining outcome "
-        "variants: random scripts from random.Random(seed, shard). Runs with an unlimited budget are capped (the "
+        "variants: random scripts from random.Random(seed, shard). WHAT the network reports is a dimension of its own: refusals in the framework's own "
+        "exception classes (Twisted ConnectionRefusedError/TimeoutError/DNSLookupError - not OSErrors; asyncio TimeoutError, gaierror) and, on TLS "
+        "transports (wss/rss/tls=True), TLS handshake failures (asyncio: ssl.SSLCertVerificationError / ssl.SSLError raised by create_connection; "
+        "Twisted: connectionLost(OpenSSL.SSL.Error) after TCP came up) and TLS-layer losses before/after the join, in 7 short histories x both kinds x "
+        "3 budgets and mixed into 30% of the random scripts. stop() at every phase is repeated under the classifiers {always, ApplicationError, OSError, "
+        "never, n-th} with 1 transport (all scripts up to length 2 / 3) and with 2-3 transports whose others are already out of attempts. "
+        "Runs with an unlimited budget are capped (the "
         "application then calls stop()). A case is non-trivial when the reference judged at least one retry decision "
         "(a second attempt, an exhaustion, a completion or a stop()); distinct = hash of (framework, case).")
 ASSUMPTIONS = [
@@ -58,7 +64,9 @@ ASSUMPTIONS = [
     "stop() is judged at EVERY point, including a first or later attempt that is in flight / connected / HELLO sent and then goes on to join and stay joined "
     "(outcome J): whatever becomes of that attempt, start() must have completed successfully when the network is quiet; what the left-over connection does is not judged",
     "after stop() the future of start() must have completed successfully once the network is quiet (or after the run's cap of further attempts); "
-    "an error completion after stop() is accepted only when every transport was exhausted at that time or main had failed; attempts made after "
+    "an error completion after stop() is accepted only when every transport was exhausted BEFORE stop() was called (at an earlier attempt) or main had "
+    "failed: causes of completion are events and the first one decides, so the loss/ABORT/GOODBYE of the very session or attempt stop() is shutting down - "
+    "even when the classifier calls it fatal and no transport has attempts left afterwards - comes after 'stop() is called'; attempts made after "
     "stop()/after completion are counted (attempts_after_completion) but not judged beyond the budget rules - the statement is silent on them",
     "exceptions escaping to the reactor/loop from callbacks that touch the already-cleared _done_f (AttributeError on None) and exceptions "
     "raised by stop() itself on a finished component are counted (internal_errors_observed), not reported: the statement is about the result of start()",
@@ -70,6 +78,10 @@ ASSUMPTIONS = [
     "is_closing() once the connection is gone, so the harness sets that flag on vf.world's fake transport. Twisted: the endpoint Deferred fires "
     "synchronously right after makeConnection() and connectionLost is never delivered re-entrantly, so this ordering cannot occur there "
     "(He/Hde are not generated for Twisted)",
+    "the exception classes and args of scripted failures are those the real frameworks produce (probed: asyncio create_connection(ssl=True) against a "
+    "non-TLS peer raises ssl.SSLError(1, '[SSL: WRONG_VERSION_NUMBER] ...') without connection_made; Twisted's TLSMemoryBIOProtocol delivers "
+    "connectionLost(Failure(OpenSSL.SSL.Error([('SSL routines', '', 'wrong version number')]))) after connectionMade); OpenSSL.SSL.SysCallError and "
+    "empty error queues were not observed from Twisted 26.4 and are not scripted; TLS failures are only scripted on TLS transports",
     "Twisted: task.Clock.callLater is given the assertion of the real ReactorBase.callLater (delay >= 0); asyncio: loop.call_at is only observed",
     "library randomness (random.normalvariate jitter) is real and recorded, not injected; a replay re-draws it, so a jitter-dependent witness may "
     "need several replays",
@@ -95,6 +107,10 @@ DECIDING = {
     "leave_requested_then_lost_judged": 200,           # GOODBYE sent (leave()/main returned/stop()), TCP lost before the reply
     "stop_before_join_on_retry_judged": 100,           # stop() with a 2nd+ attempt in flight / connected / HELLO sent
     "stop_before_join_then_joined_judged": 100,        # ... and that attempt went on to join      # asyncio: connection_lost delivered before the connect future's callbacks ran
+    "native_refusal_classes_judged": 150,              # refusal reported in the framework's own classes (twisted ConnectError family / TimeoutError, gaierror)
+    "tls_failures_judged": 200,                        # TLS handshake failure / TLS-layer loss (ssl.SSLError | OpenSSL.SSL.Error) on a TLS transport
+    "stop_then_exhausted_judged": 500,                 # stop() first, afterwards no transport has attempts left: polarity of start() judged
+    "stop_joined_then_exhausted_judged": 100,          # ... stop() on a joined session whose loss/ABORT/GOODBYE the classifier calls fatal
 }
 
 MAX_RETRIES = [0, 1, 2, 5, -1]
@@ -106,7 +122,7 @@ FATAL = [None, "always", "never", "oserror", "apperror", "nth:0", "nth:1", "nth:
 SERS = ["json", "msgpack", "cbor"]
 EPS = 1e-6
 
-from vf.c14_driver import APPLICABLE, JOINING, PHASES, PRESESSION, TERMINAL_OK  # noqa: E402
+from vf.c14_driver import APPLICABLE, JOINING, NATIVE_REFUSALS, PHASES, PRESESSION, TERMINAL_OK, TLS_OUTCOMES  # noqa: E402
 
 
 # =====================================================================================================================
@@ -237,6 +253,9 @@ def judge(case, obs, fw, R=None):
             cnt("early_teardowns_judged")
         if a.get("presession"):
             cnt("presession_clean_closes_judged" if a["presession"] == "clean" else "presession_resets_judged")
+        if a.get("reason_class"):
+            # the failure was reported with a framework-native refusal class / a TLS error; what follows it is judged like any failure
+            cnt("tls_failures_judged" if a["reason_class"] == "tls" else "native_refusal_classes_judged")
         if a["joined"]:
             ref.joined(i)
             cnt("joins_resetting_budget")
@@ -287,9 +306,21 @@ def judge(case, obs, fw, R=None):
                 viol("C14/stop/%s/never-completes" % phase,
                      "stop() was called (%s of attempt %d) but the future of start() never completed; %d attempts were started afterwards" % (
                          stop["phase"], stop["n"], sum(1 for a in attempts if a["t"] >= stop["t"] and a["n"] > stop["n"])))
-        elif got == "err" and not (main_failed or completion_cause == "err:exhausted"):
+        # causes of completion are events: the FIRST one decides.  stop() at some phase of attempt n precedes the end of attempt n
+        # and of every later attempt, so an exhaustion reached there (e.g. the loss of the session stop() is leaving, classified
+        # fatal) comes after "stop() is called"; only an exhaustion at an earlier attempt preceded the stop() call
+        stop_first = completion_cause == "err:exhausted" and exhausted_at >= stop["n"]
+        if stop_first:
+            cnt("stop_then_exhausted_judged")
+            if stop["phase"] == "joined":
+                cnt("stop_joined_then_exhausted_judged")
+        if got == "err" and not (main_failed or completion_cause == "err:exhausted"):
             viol("C14/stop/%s/completes-with-error" % phase,
                  "stop() was called but start() completed with %r although transports had attempts left" % (results[0],))
+        elif got == "err" and not main_failed and stop_first:
+            viol("C14/stop/%s/completes-with-error/exhausted-after-stop" % phase,
+                 "stop() was called (%s of attempt %d), afterwards the last transport ran out of attempts (attempt %d): start() "
+                 "completed with %r instead of successfully" % (stop["phase"], stop["n"], exhausted_at, results[0]))
     else:
         if completion_cause is not None and completion_cause.startswith("ok:"):
             if got == "err" and not main_failed:
@@ -394,12 +425,31 @@ def one_transport_scripts(maxlen, with_main, fw="tx", extras=False):
                     yield list(pre) + [t]
 
 
-def transport_cfg(rng, max_retries=None, kind=None, jitter=None):
-    return {"kind": kind or rng.choice(["websocket", "rawsocket"]), "ser": rng.choice(SERS),
-            "max_retries": rng.choice(MAX_RETRIES) if max_retries is None else max_retries,
-            "initial_retry_delay": rng.choice(INITIAL), "retry_delay_growth": rng.choice(GROWTH),
-            "retry_delay_jitter": rng.choice(JITTER) if jitter is None else jitter,
-            "max_retry_delay": rng.choice(MAXDELAY), "ep": rng.choice(["url", "url", "dict", "unix"])}
+def transport_cfg(rng, max_retries=None, kind=None, jitter=None, tls=False):
+    t = {"kind": kind or rng.choice(["websocket", "rawsocket"]), "ser": rng.choice(SERS),
+         "max_retries": rng.choice(MAX_RETRIES) if max_retries is None else max_retries,
+         "initial_retry_delay": rng.choice(INITIAL), "retry_delay_growth": rng.choice(GROWTH),
+         "retry_delay_jitter": rng.choice(JITTER) if jitter is None else jitter,
+         "max_retry_delay": rng.choice(MAXDELAY), "ep": rng.choice(["url", "url", "dict", "unix"])}
+    if tls:
+        t["tls"] = True       # wss:// / rss:// (asyncio: endpoint dict with tls=True): TLS failures are scripted only on these
+    return t
+
+
+def vary_failure_reasons(script, rng, fw):
+    """Re-tell a script with other exception classes for the same events (own random stream): refusals in the framework's own
+    classes, and - then on TLS transports - TLS handshake failures / TLS-layer losses.  -> (script, needs_tls)"""
+    tls = rng.random() < 0.5
+    out = []
+    for o in script:
+        if o == "R" and rng.random() < 0.6:
+            o = rng.choice(list(NATIVE_REFUSALS[fw]) + (["Tv", "Tw", "Tv", "Tw"] if tls else []))
+        elif o == "Hd" and tls:
+            o = "Ds"
+        elif o == "L" and tls and rng.random() < 0.5:
+            o = "Ls"
+        out.append(o)
+    return out, any(o in TLS_OUTCOMES for o in out)
 
 
 def gen_cases(tier, seed, fw):
@@ -467,8 +517,12 @@ def gen_cases(tier, seed, fw):
         elif rng.random() < 0.1:
             stop = {"at": len(script) + rng.randint(0, 2), "phase": rng.choice(["delay", "inflight"])}
         same_budget = rng.choice(MAX_RETRIES) if rng.random() < 0.3 else None
+        rng2 = random.Random("%d/%s/%d/reasons" % (seed, fw, idx[0]))
+        needs_tls = False
+        if rng2.random() < 0.3:
+            script, needs_tls = vary_failure_reasons(script, rng2, fw)
         out.append(("random", {
-            "transports": [transport_cfg(rng, max_retries=same_budget) for _k in range(nt)], "main": main,
+            "transports": [transport_cfg(rng, max_retries=same_budget, tls=needs_tls) for _k in range(nt)], "main": main,
             "fatal": rng.choice(FATAL), "script": script, "stop": stop, "taps": rng.random() < 0.3,
             "cap": len(script) + rng.choice([3, 6, 10])}))
     # D. long refusal runs: back-off walk, jitter, cap of the delay
@@ -481,6 +535,48 @@ def gen_cases(tier, seed, fw):
             "main": rng.choice([None, "sync"]), "fatal": None,
             "script": [rng.choice(["R", "R", "H", "L", "A"] + (["He", "Hde"] if fw == "aio" else [])) for _j in range(rng.randint(0, 4))],
             "stop": None, "cap": 14}))
+    # E. WHAT the network reports for a failure: the framework's own refusal classes, TLS handshake failures and TLS-layer
+    #    losses (TLS transports) - after each of them the reconnect loop must go on exactly as after a plain refusal
+    for main in (None, "sync"):
+        for o in list(NATIVE_REFUSALS[fw]) + ["Tv", "Tw", "Ds"]:
+            for kind in ("websocket", "rawsocket"):
+                for shape in ([o], [o, o, "L"], ["L", o], [o, "J"], ["R", o, "G"], [o, "A", o], ["Ls", o]):
+                    for mr in (0, 2, -1):
+                        rng = rng_for()
+                        tls = any(x in TLS_OUTCOMES for x in shape)
+                        for fatal in (FATAL if tier != "quick" else [rng.choice(FATAL) if rng.random() < 0.3 else None]):
+                            out.append(("failure-reasons-1t", {
+                                "transports": [transport_cfg(rng, max_retries=mr, kind=kind, tls=tls)], "main": main, "fatal": fatal,
+                                "script": list(shape), "stop": None, "taps": rng.random() < 0.2, "cap": len(shape) + (4 if mr == -1 else 8)}))
+    # F. stop() at every phase x is_fatal classifiers: whatever ends the attempt after stop() may be classified fatal and
+    #    leave no transport with attempts - "stop() is called" came first
+    every_policy = tier != "quick"
+    for main in (None, "sync", "async"):
+        for script in one_transport_scripts(stop_len, bool(main), fw, extras=True):
+            full = script if script else ["R"]
+            for at in range(len(full)):
+                for phase in APPLICABLE[full[at]]:
+                    rng = rng_for()
+                    others = ["apperror", "oserror", "never", "nth:%d" % at, "nth:%d" % (at + 1)]
+                    for fatal in ["always"] + (others if every_policy and len(full) <= 2 else [rng.choice(others)] if rng.random() < 0.5 else []):
+                        out.append(("stop-classifier-1t", {
+                            "transports": [transport_cfg(rng, max_retries=rng.choice((0, 2, -1)))], "main": main, "fatal": fatal,
+                            "script": full, "stop": {"at": at, "phase": phase}, "taps": rng.random() < 0.2, "cap": len(full) + 4}))
+    # G. the same with 2-3 transports: the others are out of attempts (fatal / budget) when stop() meets the last one
+    for nt in (2, 3):
+        for k in range(0, 3 if tier == "quick" else 4):
+            for pre in itertools.product(["R", "A", "L"], repeat=k):
+                for last in ("L", "Lc", "K", "A", "R", "Gl", "J"):
+                    for phase in APPLICABLE[last]:
+                        rng = rng_for()
+                        others = ["apperror", "oserror", "nth:%d" % k, "nth:%d" % (k + 1)]
+                        same_budget = rng.choice((0, 0, 1, 2))
+                        for fatal in ["always"] + (others if every_policy else [rng.choice(others)] if rng.random() < 0.5 else []):
+                            out.append(("stop-classifier-mt", {
+                                "transports": [transport_cfg(rng, max_retries=same_budget) for _k in range(nt)],
+                                "main": rng.choice([None, None, "sync"]), "fatal": fatal,
+                                "script": list(pre) + [last], "stop": {"at": k, "phase": phase}, "taps": rng.random() < 0.2,
+                                "cap": k + 1 + 6}))
     return out
 
 
@@ -525,6 +621,8 @@ def run_one(case, fw, R, family="replay", sample_every=400):
     R.seen("end_states", "%s/%s" % ([r[0] for r in obs["start_results"] or []], "quiescent" if obs["quiescent"] else "capped"))
     for a in attempts:
         R.seen("attempt_ends", "%s/%s" % (a["outcome"], a["end"]))
+        if a.get("reason"):
+            R.seen("failure_reasons", "%s/%s/%s" % (a["outcome"], a["reason"], "tls-transport" if case["transports"][a["tidx"]].get("tls") else "plain"))
     for c in obs["classifier"]:
         R.seen("classified_errors", "%s/%s" % (c["exc"], c["fatal"]))
     if obs["stop"]:
@@ -574,8 +672,9 @@ MANIFEST_ENTRY = {
              "virtual clock with the network boundary (endpoint.connect / loop.create_connection) owned by the harness; every "
              "connection attempt is time-stamped and answered according to a script of per-attempt outcomes (refused, handshake "
              "refused - on asyncio also with connection_lost delivered before the connect result -, ABORT, joined then lost, router GOODBYE, "
-             "application leave, main returns/raises, leave cut short by a transport loss, staying joined), with is_fatal "
-             "classifiers, retry/back-off grids and stop() at every phase. The attempt log, the completions of start()'s future "
+             "application leave, main returns/raises, leave cut short by a transport loss, staying joined; failures reported in the "
+             "frameworks' own exception classes incl. TLS handshake failures on TLS transports), with is_fatal "
+             "classifiers, retry/back-off grids and stop() at every phase (also under every classifier, with the stopped attempt using up the last budget). The attempt log, the completions of start()'s future "
              "and the listener invocations are compared with a reference of the retry policy written from the statement (budget "
              "since last join, fatal errors, round-robin, first attempt undelayed, waits <= max_retry_delay, exactly-once "
              "completion with the right polarity, listeners for every session), and an icontract post-condition on "
@@ -584,6 +683,6 @@ MANIFEST_ENTRY = {
              "executions listed in the evidence; not a proof."),
     "note": ("trusts the 30-line RetryPolicy reference in checks/c14.py and the fake network of vf/c14_harness.py (immediate, compliant router); "
              "main raising is a documented grey zone (retry or error both accepted); activity after stop()/after completion is counted, not judged; "
-             "real sockets/TLS/proxy paths and slow routers are not driven"),
+             "real sockets / real TLS handshakes (only their reported failures are scripted) / proxy paths and slow routers are not driven"),
     "technique": "runtime monitoring: recorded attempt/completion/listener history of the real Component on a virtual clock vs an executable retry-policy reference, icontract post-condition on next_delay, exhaustive per-attempt outcome scripts + random multi-transport scripts + stop() at every phase",
 }
